@@ -18,7 +18,7 @@
 //! T: ndjson of observations for TLC (`Utf8Trace.tla`): for every valid vector, every mismatching vector
 //! and a seeded sample of the others: `{"ev":"vec","i":idx,"s":[..],"acc":all ctors accepted,
 //! "rej":all ctors rejected,"split":[mids at which split_at returned on every value]}` each preceded
-//! by a reset record.
+//! by a reset record and followed by an end record (so a predicate violation is attributed to its run).
 //! Last stdout line: the standard JSON summary.
 
 use std::{
@@ -358,6 +358,7 @@ fn main() {
         if v.v || flagged || (rng.next() & 0xFFFF) < sample_p as u64 {
             trace.emit(&json!({"ev": "reset", "i": i}));
             trace.emit(&json!({"ev": "vec", "i": i, "s": s, "acc": all_acc, "rej": all_rej, "split": split_ok_everywhere}));
+            trace.emit(&json!({"ev": "end", "i": i}));
             traced += 1;
         }
     }
